@@ -102,9 +102,10 @@ Definition is_name_start (c : ascii) : bool :=
 
 Definition re_name (s : str) : option (str * str) :=
   let '(stars, t) := match s with
-                     | "*" :: "*" :: t => ([star; star], t)
-                     | "*" :: t => ([star], t)
-                     | _ => ([], s)
+                     | c1 :: c2 :: t' => if ceq c1 star && ceq c2 star then ([star; star], t')
+                                         else if ceq c1 star then ([star], c2 :: t') else ([], s)
+                     | [c1] => if ceq c1 star then ([star], []) else ([], s)
+                     | [] => ([], s)
                      end in
   match t with
   | c :: r => if is_name_start c then let '(w, rest) := span is_word r in Some (stars ++ c :: w, rest) else None
@@ -162,13 +163,15 @@ Definition re_parameter (line : str) : re_result (str * option str * option str)
           match r' with
           | a :: ":" :: b :: t =>
               if is_space a && is_space b then
-                let as_type := match t with [] => None | _ => Some t end in
                 match t with
-                | "{" :: u => match rsplit_char rbrace u with
-                              | Some (x :: inner, _) => ReYes (names, Some (x :: inner), None)
-                              | _ => ReYes (names, None, as_type)
-                              end
-                | _ => ReYes (names, None, as_type)
+                | [] => ReYes (names, None, None)
+                | c0 :: u =>
+                    if ceq c0 lbrace then
+                      match rsplit_char rbrace u with
+                      | Some (x :: inner, _) => ReYes (names, Some (x :: inner), None)
+                      | _ => ReYes (names, None, Some t)
+                      end
+                    else ReYes (names, None, Some t)
                 end
               else ReYes (names, None, None)
           | _ => ReYes (names, None, None)
@@ -221,17 +224,10 @@ Fixpoint find_default (s : str) : option (str * str) :=
       match find_default r with
       | Some (a, d) => Some (c :: a, d)
       | None => match r with
-                | "," :: t => match default_tail t with Some d => Some ([c], d) | None => None end
-                | _ => None
+                | d0 :: t => if ceq d0 comma then match default_tail t with Some d => Some ([c], d) | None => None end else None
+                | [] => None
                 end
       end
-  end.
-
-(* for name in names: with suppress(AttributeError, KeyError): x = docstring.parent.parameters[name]...; break *)
-Fixpoint first_param (c : pctx) (names : list str) : option (option str * option str) :=
-  match names with
-  | [] => None
-  | n :: r => match lookup_param c n with Some x => Some x | None => first_param c r end
   end.
 
 Definition ostr (o : option str) : str := match o with Some s => s | None => [] end.
@@ -261,15 +257,17 @@ Definition n_parse_param (c : pctx) (it : list str) : option (list pitem) :=
             end in
           let ann1 := match ann0 with Some a => Some (removesuffix s_optional a) | None => None end in
           let desc := rstrip (join_nl conts) in
-          let ann := match ann1 with
-                     | Some a => Some a
-                     | None => match first_param c names with Some (a, _) => a | None => None end
-                     end in
-          let dflt := match dflt0 with
-                      | Some d => Some d
-                      | None => match first_param c names with Some (_, v) => v | None => None end
-                      end in
-          Some (map (fun n => mkItem (Some n) ann desc dflt) names)
+          (* signature_annotations.get(name, annotation) / signature_defaults.get(name, default): each name its own
+             signature entry (C13-F10 repair) *)
+          let ann := fun n => match ann1 with
+                              | Some a => Some a
+                              | None => match lookup_param c n with Some (a, _) => a | None => None end
+                              end in
+          let dflt := fun n => match dflt0 with
+                               | Some d => Some d
+                               | None => match lookup_param c n with Some (_, v) => v | None => None end
+                               end in
+          Some (map (fun n => mkItem (Some n) (ann n) desc (dflt n)) names)
       end
   end.
 
